@@ -289,12 +289,10 @@ RECURSIVE SideItems(_, _)
 SideItems(ob, level) ==
   LET direct == VisContents(ob) \cup (IF IsCls(ob) THEN {c \in Inherited(ob) : ~IsOwn(c)} ELSE {})   \* :146 only Function / Attribute lists
   IN direct \cup (IF level < M.depth THEN UNION {SideItems(c, level + 1) : c \in {c \in VisContents(ob) : IsOwn(c)}} ELSE {})
-\* sidebar.py:54 the second section of a class page is ob.module = Documentable.parentMod, which reparent() updates for the
-\* moved object only: everything BELOW a re-exported class keeps the module it was defined in (field `module` of the
-\* projected System; "auto" in the skeleton, where nothing lies below a moved class).  With the fix of
-\* sidebar-names-hidden-origin-module the section is the module the object is in now.
-ModuleSeen(p) == IF Objs[p].module = "auto" \/ Objs[p].module \notin Ids \/ Fx("sidebar-names-hidden-origin-module")
-                 THEN ModuleOf(p) ELSE Objs[p].module
+\* sidebar.py:54 the second section of a class page is the module the object is in NOW (walk up the parents; 7b4db5c), not
+\* ob.module = Documentable.parentMod, which reparent() updates for the moved object only (field `module` of the projected
+\* System still records that answer: everything below a re-exported class keeps the module it was defined in)
+ModuleSeen(p) == ModuleOf(p)
 SideSections(p) == {p} \cup (IF IsMod(p) THEN (IF Objs[p].parent = None THEN {} ELSE {Objs[p].parent}) ELSE {ModuleSeen(p)})
 SideListed(p) == UNION {SideItems(s, 1) : s \in SideSections(p)}
 SidebarTitle(p, pf) == {L(pf, Url(s), "sidebarTitle") : s \in Linkable(SideSections(p))}                      \* sidebar.py:82
